@@ -175,10 +175,15 @@ def cases(tier, seed):
         # 1-d edges are "simply the x-edges list" (documented format); never nested
         form = "flat" if dim == 1 else "nested"
         target = rng.choice(["structure", "structure", "structure", "element"])
+        wkind = rng.choice(["none", "ints", "dyadic", "floats", "mixed", "ints", "bigint",
+                            "fraction", "decimal"])
+        init = rng.choice(["zero", "zero", "zerof", "bins"])
+        if wkind in ("decimal", "fraction", "bigint"):
+            init = "zero"       # integer zeros: every sum with an exact number type is exact
         yield {"k": "fill", "dim": dim, "edges": axes[0] if form == "flat" else axes,
                "form": form, "target": target,
-               "wkind": rng.choice(["none", "ints", "dyadic", "floats", "mixed", "ints"]),
-               "init": rng.choice(["zero", "zero", "zerof", "bins"]),
+               "wkind": wkind,
+               "init": init,
                # "reused": one list object refilled in place before every fill (a reader that
                # reuses its buffer); the coordinate is what the list holds when fill is called
                "ctype": rng.choice(["list", "list", "tuple", "tuple", "reused"]),
@@ -215,6 +220,15 @@ def _weights(kind, rng, n):
             out.append(rng.choice([1, 1, 2, 3, 0, -1, -4, 7, 50, rng.randint(-5, 50)]))
         elif k == "dyadic":
             out.append(rng.randint(-2 ** 20, 2 ** 20) / float(2 ** rng.randint(0, 10)))
+        elif k == "bigint":
+            # exact in Python, not representable as floats
+            out.append(rng.choice([2 ** 53 + 1, 2 ** 60 + 7, -(2 ** 55) - 3, 1, 3, 10 ** 20 + 1]))
+        elif k == "fraction":
+            from fractions import Fraction
+            out.append(Fraction(rng.randint(-9, 9), rng.choice([1, 3, 7, 10])))
+        elif k == "decimal":
+            import decimal
+            out.append(decimal.Decimal(rng.choice(["0.1", "0.2", "1.25", "-3", "7.001", "1E+2"])))
         else:
             out.append(rng.uniform(-1, 1) * 10 ** rng.randint(-6, 6))
     return out
